@@ -951,6 +951,11 @@ class Phase(Angle):
             exponent = u.Quantity(self.frac.to_value(u.radian), copy=COPY_IF_NEEDED)
             return function(exponent, **kwargs)
 
+        if method == "at":
+            # An unbuffered in-place update would be applied to a temporary
+            # single-double copy and then be lost.
+            raise TypeError(f"{function.__name__}.at is not supported for Phase.")
+
         # Fall-back: treat Phase as a simple Quantity.
         if basic:
             inputs = tuple(
